@@ -10,8 +10,6 @@
 package main
 
 import (
-	"crypto/sha256"
-	"encoding/hex"
 	"encoding/json"
 	"flag"
 	"fmt"
@@ -75,7 +73,7 @@ type Collector struct {
 	mu           sync.Mutex
 	prop         string
 	evaluations  int
-	nontrivial   map[string]bool
+	nontrivial   map[uint64]struct{}
 	dist         map[string]int
 	samples      []interface{}
 	corrFail     []Failure
@@ -97,12 +95,19 @@ type Failure struct {
 }
 
 func NewCollector(prop string) *Collector {
-	return &Collector{prop: prop, nontrivial: map[string]bool{}, dist: map[string]int{}, knownHits: map[string]int{}, extraCounts: map[string]int{}}
+	return &Collector{prop: prop, nontrivial: map[uint64]struct{}{}, dist: map[string]int{}, knownHits: map[string]int{}, extraCounts: map[string]int{}}
 }
 
-func hashLine(s string) string {
-	h := sha256.Sum256([]byte(s))
-	return hex.EncodeToString(h[:8])
+// hashLine: 64-bit FNV-1a with a final mix (distinct-input counting only; 35M entries must fit in memory)
+func hashLine(s string) uint64 {
+	h := uint64(14695981039346656037)
+	for i := 0; i < len(s); i++ {
+		h ^= uint64(s[i])
+		h *= 1099511628211
+	}
+	h ^= h >> 32
+	h *= 0x9e3779b97f4a7c15
+	return h ^ h>>29
 }
 
 func (c *Collector) Add(cs *Case, o Outcome) {
@@ -115,7 +120,7 @@ func (c *Collector) Add(cs *Case, o Outcome) {
 		return
 	}
 	if cs.Nontrivial {
-		c.nontrivial[hashLine(cs.Line)] = true
+		c.nontrivial[hashLine(cs.Line)] = struct{}{}
 	}
 	if len(c.samples) < 6 && (c.evaluations%97 == 1 || len(c.samples) == 0) {
 		c.samples = append(c.samples, map[string]string{"case": clip(cs.Line, 400), "impl": clip(o.Impl, 300), "model": clip(o.Model, 300), "spec": clip(o.Spec, 300)})
